@@ -142,12 +142,16 @@ func (H) Gen(prop string, rng *rand.Rand, tier string) *core.Plan {
 			// the statement is asked while every kv family of the node (index, metadata, data) is being compacted:
 			// a compaction may commit, delete and unmap its input files between two steps of one query
 			p.Ops = append(p.Ops, core.Op{K: "qflush", A: 2, S: fmt.Sprint(rng.Intn(1 << 30))})
+		case r < 80 && prop == "C11":
+			// the statement is asked while rows arrive for its series whose timestamps lie outside its time range (they
+			// leave the write window of the memory database: compaction of the window under the reader)
+			p.Ops = append(p.Ops, core.Op{K: "qflush", A: 3, S: fmt.Sprint(rng.Intn(1 << 30))})
 		default:
 			p.Ops = append(p.Ops, core.Op{K: "query", S: fmt.Sprint(rng.Intn(1 << 30))})
 		}
 	}
 	p.Ops = append(p.Ops, core.Op{K: "flush"}, core.Op{K: "query", S: fmt.Sprint(rng.Intn(1 << 30))}, core.Op{K: "query", S: fmt.Sprint(rng.Intn(1 << 30))})
-	p.Cfg["maporder"] = rng.Intn(2) // tape-chosen iteration order of Go maps in the code under test
+	p.Cfg["maporder"] = rng.Intn(2)   // tape-chosen iteration order of Go maps in the code under test
 	p.Cfg["realmgr"] = rng.Intn(2)    // responses are received by lindb's own task manager on a real worker pool
 	p.Cfg["mgrworkers"] = rng.Intn(3) // 1-3 workers
 	p.Cfg["fieldmodes"] = rng.Intn(2)
@@ -155,7 +159,7 @@ func (H) Gen(prop string, rng *rand.Rand, tier string) *core.Plan {
 		p.Cfg["odd"] = rng.Intn(2) // tag values starting with '~' / containing a comma, filters that print alike
 	}
 	if prop == "C11" {
-		p.Cfg["multi"] = rng.Intn(2) // statements may select two columns
+		p.Cfg["multi"] = rng.Intn(2)        // statements may select two columns
 		p.Cfg["families"] = 1 + rng.Intn(2) // points of one or two hours: one or two data families per shard
 		p.Cfg["fx"] = rng.Intn(2)           // histograms in the rows; rate, arithmetic, quantile, functions on last / first fields in the statements
 	}
@@ -163,19 +167,19 @@ func (H) Gen(prop string, rng *rand.Rand, tier string) *core.Plan {
 }
 
 type run struct {
-	c       *core.RunCtx
-	n       *Node
-	db      string
-	shards  int
-	series  []seriesDef
-	shardOf []int
-	route   bool // writes are split by lindb's broker-side routing (hash -> shard, timestamp -> family)
-	own     map[int]bool // C12 node databases: the shards this database holds (nil = all)
-	forceOnly int // > 0: the next write carries exactly field forceOnly-1 (mid-flush writes)
-	points  []point
-	flushes int
-	epoch   int
-	seqBase uint32 // series id sequence set by the last jump
+	c         *core.RunCtx
+	n         *Node
+	db        string
+	shards    int
+	series    []seriesDef
+	shardOf   []int
+	route     bool         // writes are split by lindb's broker-side routing (hash -> shard, timestamp -> family)
+	own       map[int]bool // C12 node databases: the shards this database holds (nil = all)
+	forceOnly int          // > 0: the next write carries exactly field forceOnly-1 (mid-flush writes)
+	points    []point
+	flushes   int
+	epoch     int
+	seqBase   uint32 // series id sequence set by the last jump
 
 	pendingFirstLast func() // first C11/first-last-order observation of the run (known finding)
 }
@@ -869,6 +873,58 @@ func (r *run) query(op core.Op, duringFlush bool) {
 	sqlText := q.sql()
 	before := len(r.points) // every write completed before the query started
 	flushDone := true
+	var latePoints []point
+	defer func() {
+		// known findings (10.2): a statement that overlaps writes. Only the two analysed signatures, and only when this
+		// statement was asked while the late writer ran
+		if latePoints != nil && (c.Res.Sig == "C11/value-missing" || c.Res.Sig == "C11/series-unexpected") {
+			c.Res.Sig += "/during-out-of-range-write"
+		}
+	}()
+	if c.Violated() {
+		return
+	}
+	if duringFlush && op.A == 3 {
+		// a writer task: 1-3 rows for series of the run, 40-55 minutes into an hour the statement does not cover at
+		// that place (the rows of the run lie in the first 10 minutes); the expected answer does not change
+		duringFlush = false
+		var ts int64 = -1
+		for _, cand := range []int64{Jan1 + 2400000 + int64(rng.Intn(90))*10000, Jan1 + 3600000 + 2400000 + int64(rng.Intn(90))*10000} {
+			if (cand < q.start || cand > q.end) && (cand < Jan1+3600000 || c.Plan.C("families", 1) > 1) {
+				ts = cand
+				break
+			}
+		}
+		if ts >= 0 {
+			flushDone = false
+			nrows := 1 + rng.Intn(3)
+			byShard := map[int][]rows.Point{}
+			for i := 0; i < nrows; i++ {
+				si := rng.Intn(len(r.series))
+				var fs []rows.Field
+				for fi, spec := range fieldSpecs[:nSimple] {
+					v := float64(1 + rng.Intn(40))
+					fs = append(fs, rows.Field{Name: spec.name, Type: spec.typ, Value: v})
+					latePoints = append(latePoints, point{series: si, field: fi, ts: ts + int64(i)*10000, value: v, epoch: r.epoch})
+				}
+				byShard[r.shardOf[si]] = append(byShard[r.shardOf[si]], rows.Point{Name: "m", Tags: r.series[si].tags(), Timestamp: ts + int64(i)*10000, Fields: fs})
+			}
+			c.Sim.Spawn("late-writer", func() {
+				for sh := 0; sh < r.shards; sh++ {
+					if len(byShard[sh]) > 0 {
+						if err := r.n.Write(r.db, sh, byShard[sh]); err != nil {
+							c.Anomaly("write: %v", err)
+						}
+					}
+				}
+				c.Sim.Probe("query-during-out-of-range-writes")
+				flushDone = true
+			})
+			if os.Getenv("VERIF_LATE_WRITER_FIRST") != "" { // diagnosis: no overlap, the rows are written before the statement is asked
+				c.Sim.Await(func() bool { return flushDone })
+			}
+		}
+	}
 	if duringFlush {
 		flushDone = false
 		c.Sim.Spawn("flusher", func() {
@@ -934,6 +990,10 @@ func (r *run) query(op core.Op, duringFlush bool) {
 	c.Sim.Await(func() bool { return flushDone })
 	c.Oracle()
 	exp := r.expected(q, before)
+	for _, lp := range latePoints {
+		lp.order = len(r.points)
+		r.points = append(r.points, lp)
+	}
 	prop := c.Plan.Prop
 	if err != nil && q.two {
 		// a statement that names a field no written point carries is rejected like one naming an unknown column
@@ -1170,7 +1230,9 @@ func (r *run) compare(sqlText string, q queryDef, exp map[string]*expGroup, rs *
 							return
 						}
 						if firstLastFlag == nil {
-							firstLastFlag = func() { c.Violate(prop+"/first-last-order", "%s: group %v slot %s = %v, the %s written value of the bucket is %v (written values %v)", sqlText, e.tags, fmtTime(s), gv, fieldSpecs[q.field].agg, strict, cands) }
+							firstLastFlag = func() {
+								c.Violate(prop+"/first-last-order", "%s: group %v slot %s = %v, the %s written value of the bucket is %v (written values %v)", sqlText, e.tags, fmtTime(s), gv, fieldSpecs[q.field].agg, strict, cands)
+							}
 						}
 					}
 				}
